@@ -10,6 +10,7 @@ use std::collections::BTreeMap;
 
 pub const VARIANTS: &[&str] = &[
     "base", "identical", "pool-added", "pool-removed", "server-changed", "password-changed", "pool-size-changed", "mode-changed", "general-changed", "invalid-toml", "invalid-two-primaries", "invalid-default-role", "with-replica", "roles-swapped",
+    "parser-with-replica", "parser-roles-swapped", "parser-default-replica",
     "invalid-default-shard", "invalid-rw-split-without-parser", "invalid-shard-regex", "invalid-auto-sharding-key", "invalid-plugins-without-parser",
 ];
 
@@ -49,6 +50,20 @@ pub fn variant(v: &str) -> (String, BTreeMap<String, String>) {
             pools[0].shards[0].servers = vec![("pg-a".into(), 5432, "replica".into()), ("pg-a2".into(), 5432, "primary".into())];
             pools[0].extra = "default_role = \"primary\"\n".into();
         }
+        // the same failover on a pool that parses statements without splitting reads and writes
+        "parser-with-replica" => {
+            pools[0].shards[0].servers = vec![("pg-a".into(), 5432, "primary".into()), ("pg-a2".into(), 5432, "replica".into())];
+            pools[0].extra = "default_role = \"primary\"\nquery_parser_enabled = true\nquery_parser_read_write_splitting = false\n".into();
+        }
+        "parser-roles-swapped" => {
+            pools[0].shards[0].servers = vec![("pg-a".into(), 5432, "replica".into()), ("pg-a2".into(), 5432, "primary".into())];
+            pools[0].extra = "default_role = \"primary\"\nquery_parser_enabled = true\nquery_parser_read_write_splitting = false\n".into();
+        }
+        // same servers as parser-with-replica, the default role moves to the replica
+        "parser-default-replica" => {
+            pools[0].shards[0].servers = vec![("pg-a".into(), 5432, "primary".into()), ("pg-a2".into(), 5432, "replica".into())];
+            pools[0].extra = "default_role = \"replica\"\nquery_parser_enabled = true\nquery_parser_read_write_splitting = false\n".into();
+        }
         "invalid-two-primaries" => pools[0].shards[0].servers.push(("pg-a2".into(), 5432, "primary".into())),
         "invalid-default-role" => pools[0].extra = "default_role = \"leader\"\n".into(),
         "invalid-toml" => {}
@@ -68,7 +83,8 @@ pub fn variant(v: &str) -> (String, BTreeMap<String, String>) {
         .iter()
         .map(|p| {
             let srv = &p.shards[0].servers;
-            (p.name.clone(), srv.iter().find(|s| s.2 == "primary").unwrap_or(&srv[0]).0.clone())
+            let want = if p.extra.contains("default_role = \"replica\"") { "replica" } else { "primary" };
+            (p.name.clone(), srv.iter().find(|s| s.2 == want).unwrap_or(&srv[0]).0.clone())
         })
         .collect();
     let mut cfg = Cfg { pools, ..Default::default() };
@@ -400,6 +416,9 @@ pub fn build(tier: &str) -> SimCheck {
         // a change of roles only
         scenarios.push(scenario("with-replica", "roles-swapped", via));
         scenarios.push(scenario("roles-swapped", "with-replica", via));
+        scenarios.push(scenario("parser-with-replica", "parser-roles-swapped", via));
+        scenarios.push(scenario("parser-with-replica", "parser-default-replica", via));
+        scenarios.push(scenario("parser-default-replica", "parser-with-replica", via));
     }
     scenarios.push(retry_scenario("admin"));
     scenarios.push(retry_scenario("sighup"));
@@ -408,7 +427,7 @@ pub fn build(tier: &str) -> SimCheck {
         oracle: Box::new(oracle),
         bound: if thorough { 3 } else { 2 },
         limits: Limits { max_wall_s: if thorough { 1500.0 } else { 55.0 }, ..Default::default() },
-        rule: "scenario = (old, new) configuration pair (identical rewrite, pool added / removed, server list / password / pool_size / pool_mode / general setting changed, invalid TOML, two primaries, bad default_role, default_shard one past the last shard, read/write splitting or plugins without the parser, unparsable shard regex, unqualified automatic sharding key; also from non-initial definitions) x RELOAD via the admin console or via the SIGHUP path; two clients on an affected and an unaffected pool run three transactions each, a late client logs in afterwards; the reload is placed at every point of their schedules with <= bound deviations".into(),
+        rule: "scenario = (old, new) configuration pair (identical rewrite, pool added / removed, server list / password / pool_size / pool_mode / general setting changed, invalid TOML, two primaries, bad default_role, default_shard one past the last shard, read/write splitting or plugins without the parser, unparsable shard regex, unqualified automatic sharding key; failover and default_role change on a pool that parses statements without read/write splitting; also from non-initial definitions) x RELOAD via the admin console or via the SIGHUP path; two clients on an affected and an unaffected pool run three transactions each, a late client logs in afterwards; the reload is placed at every point of their schedules with <= bound deviations".into(),
         assumptions: vec!["the SIGHUP path is exercised by calling reload_config(), which is all the signal handler does".into()],
     }
 }
